@@ -10,7 +10,7 @@ Established for each generator and for _code_gen by vf/contracts/c_expansion.py;
 contract, _code_gen's dispatch loop can use it for the arbitrary element, and the generators can use it for the recursive call.
 """
 from a816.parse.nodes import NodeError
-from vf.contracts.rt import fresh_int, fresh_list, ghost_get, grow_list, require
+from vf.contracts.rt import fresh_int, fresh_list, ghost, ghost_get, grow_list, require
 
 
 def is_one_of(x, candidates):
@@ -36,4 +36,9 @@ def generator_model(node, resolver, macro_definitions, file_info):
 def code_gen_model(ast_nodes, resolver, macro_definitions):
     require("resolver_scopes_consistent", resolver.last_used_scope == len(resolver.scopes) - 1)
     require("expands_only_sub_trees_of_its_own_node", ghost_get("explicit_recursion") or is_one_of(ast_nodes, ghost_get("sub_trees")))
+    # ghost record of the expansion (read by per-iteration / selection contracts of the callers)
+    ghost("last_expansion_tree", ast_nodes)
+    ghost("last_expansion_scope", resolver.current_scope)
+    ghost("last_expansion_bindings", dict(resolver.current_scope.symbols))  # the names bound WHILE the sub-tree is expanded
+    ghost("n_expansions", ghost_get("n_expansions") + 1)
     return _effects(resolver, None)
